@@ -144,6 +144,9 @@ def run(pid, tier, seed, args, t0):
     P = importlib.import_module('props.' + pid).PROP
     opens, fixed = load_known()
     opens = [o for o in opens if o.get('property') == pid]
+    if SP.DUPLICATES:
+        print('CHECKER-FAULT two contracts registered for %s' % ', '.join(SP.DUPLICATES))
+        return 3
     eng = engine.Engine()
     if os.environ.get('PYVC_MUTANT'):       # self-test hook: "qual::old text=>new text"
         mq, _, edit = os.environ['PYVC_MUTANT'].partition('::')
@@ -199,9 +202,23 @@ def run(pid, tier, seed, args, t0):
             by_name.setdefault(o.name, []).append((o, r))
             name_verdict[o.name] = r['verdict']
     open_names = sorted(n for n, v in name_verdict.items() if v != 'unsat')
+    # (run before the counter-model search: a native violation already decides the check)
+    # ---- finite tables / call-site inventories (exhaustive ground obligations)
+    table_results = []
+    for tname in P.get('tables', []):
+        table_results.extend(getattr(tables, tname)())
+    # ---- bounded stand-ins (labelled, never counted as proved)
+    bounded_results = []
+    for bname in P.get('bounded', []):
+        mod = importlib.import_module('bounded.' + bname)
+        bounded_results.append(mod.run(tier, seed))
     # ---- refutation of what is not discharged: bounded counter-model search + native replay
     refuted = {}
-    if open_names:
+    native_violation = any(not t['ok'] for t in table_results) or any(
+        v['name'] not in set(k.get('obligation') for k in opens) for b in bounded_results for v in b.get('violations', []))
+    if open_names and native_violation:
+        undecided.append('counter-model search for %d open obligation(s) skipped: a table / bounded case already fails' % len(open_names))
+    if open_names and not native_violation:
         by_fn = {}
         for n in open_names:
             if by_name[n][0][0].fr is not None:
@@ -243,15 +260,6 @@ def run(pid, tier, seed, args, t0):
                         for n in loopish:
                             refuted.setdefault(n, dict(rr, via_exit_obligation=o.name))
                         found_new = True
-    # ---- finite tables / call-site inventories (exhaustive ground obligations)
-    table_results = []
-    for tname in P.get('tables', []):
-        table_results.extend(getattr(tables, tname)())
-    # ---- bounded stand-ins (labelled, never counted as proved)
-    bounded_results = []
-    for bname in P.get('bounded', []):
-        mod = importlib.import_module('bounded.' + bname)
-        bounded_results.append(mod.run(tier, seed))
     # ---- vacuity
     covers = {fr.qual: fr.pre_sat for fr in frs if not fr.error}
     for q, v in covers.items():
